@@ -194,7 +194,18 @@ def lattice_case(case):
         try:
             if off:
                 R.read_uint(off)
-            [R.read_uint, R.read_uint_or_none, R.read_bin][val](w)
+            if val < 3:
+                [R.read_uint, R.read_uint_or_none, R.read_bin][val](w)
+            elif val == 3:
+                R.read_int(w)
+            elif val == 4:
+                R.read_bool()
+            elif val == 5:
+                R.read_bytes(w // 8)
+            elif val == 6:
+                R.read('bytes', w)
+            else:
+                R.read(['uint', 'int', 'bin'][val - 7], w)
         except BitReadError:
             return 'pastend:BitReadError', viol
         except Exception as e:
@@ -225,6 +236,17 @@ def lattice_cases():
                     yield ['ioverflow', w, v, off]
             for which in (0, 1, 2):
                 yield ['pastend', w, which, off]
+            # every other typed read as well: sign-magnitude, boolean, bytes (octet aligned or not), the generic read()
+            if w >= 2:
+                yield ['pastend', w, 3, off]
+                yield ['pastend', w, 8, off]
+            if w == 1:
+                yield ['pastend', w, 4, off]
+            if w % 8 == 0:
+                yield ['pastend', w, 5, off]
+                yield ['pastend', w, 6, off]
+            yield ['pastend', w, 7, off]
+            yield ['pastend', w, 9, off]
 
 
 def run_lattice(cases):
